@@ -27,7 +27,7 @@ from fractions import Fraction
 
 import numpy as _np
 from sympy import QQ
-from sympy.polys.fields import field as _field
+from sympy.polys.fields import field as _field, FracElement as _FracElement
 from sympy.polys.matrices import DomainMatrix
 
 from .core import Unsupported
@@ -169,6 +169,8 @@ class FieldCtx:
             return self.K(QQ(fr.numerator, fr.denominator))
         if isinstance(o, Fraction):
             return self.K(QQ(o.numerator, o.denominator))
+        if isinstance(o, _FracElement) and o.field == self.K:
+            return o
         return None
 
 
@@ -636,11 +638,16 @@ def kkt_matrix(F, X):
 
 
 def det(F, W):
-    """Exact determinant (field element) of a square matrix of field elements (fraction-free when all are polynomials)."""
+    """Exact determinant (field element) of a square matrix of field elements.
+
+    Fraction-free (Bareiss over the polynomial ring) when all entries are polynomials.  Rows and columns are first permuted
+    by the SAME permutation (determinant unchanged) so that the numerically simple rows/columns are eliminated first."""
     N = len(W)
     if all(e.denom == 1 for r in W for e in r):
         R = F.K.ring
-        d = DomainMatrix([[e.numer for e in r] for r in W], (N, N), R.to_domain()).det()
+        weight = [max(max(len(W[i][j].numer), len(W[j][i].numer)) for j in range(N)) for i in range(N)]
+        perm = sorted(range(N), key=lambda i: (weight[i], i))
+        d = DomainMatrix([[W[i][j].numer for j in perm] for i in perm], (N, N), R.to_domain()).det()
         return F.K.new(d, R(1))
     return DomainMatrix([list(r) for r in W], (N, N), F.dom).det()
 
